@@ -6,6 +6,17 @@ From Theo Require Import Base Grammar LR SpecMacro SpecLR LRStatements Proofs_Fi
 Import ListNotations.
 
 (* ================================================================================================ *)
+(* 0. the two hypotheses the statements of LRStatements.v lack (see Proofs_LRSound.v)                 *)
+(* ================================================================================================ *)
+(* every non-terminal occurring in a right-hand side is one of g's own (index < total_nt g):
+   `elements` takes the next two indices for S' and E *)
+Definition rhs_closed (g : grammar) : Prop :=
+  forall X alts alt n, In (X, alts) (right_sides g) -> In alt alts -> In (Nt n) alt -> (n < total_nt g)%N.
+
+(* the end marker occurs in no rule of g *)
+Definition eof_fresh (g : grammar) (eof : sym) : Prop := ~ mentioned g eof.
+
+(* ================================================================================================ *)
 (* 1. the result monad                                                                               *)
 (* ================================================================================================ *)
 Lemma bind_Ok {A B} (r : result A) (f : A -> result B) b :
@@ -366,12 +377,6 @@ Qed.
 (* ================================================================================================ *)
 (* 6. the extended grammar                                                                            *)
 (* ================================================================================================ *)
-Definition rhs_closed (g : grammar) : Prop :=
-  forall X alts alt n, In (X, alts) (right_sides g) -> In alt alts -> In (Nt n) alt -> (n < total_nt g)%N.
-
-(* the end marker does not occur in the grammar *)
-Definition eof_fresh (g : grammar) (eof : sym) : Prop := ~ mentioned g eof.
-
 Definition ext_grammar (g : grammar) (S eof : sym) : grammar :=
   let g1 := fst (create_nt g) in
   let g2 := push_alt g1 (Nt (total_nt g)) [S] in
